@@ -7,6 +7,7 @@
    behaviour before the fix, kept for the ..._without_F16 theorems. *)
 From Coq Require Import List NArith ZArith Bool.
 From JV Require Import Bytes Msg ErrsJson ErrsJsonProofs Errs ErrsProofs.
+From JV Require Json JsonProofs JsonTree JsonEq ErrsMore.
 Import ListNotations.
 Local Open Scope Z_scope.
 
@@ -298,3 +299,41 @@ Theorem c14_cancellation_refuted_if_replaced :
   (forall r e', call_ctx false CtxLive r e' = call r e').
 Proof. exact cancellation_refuted_if_replaced. Qed.
 Print Assumptions c14_cancellation_refuted_if_replaced.
+
+(* -- the two JSON models agree (errs/ErrsMore.v): C14's byte-scanner model of json.Marshal(RawMessage)
+      and of a string's round trip vs C13's tree model (json/Json.v) ------------------------------------- *)
+
+(* a Go string through json.Marshal / json.Unmarshal: the same function in both models, for every input *)
+Theorem c14_message_model_agrees : forall m : bytes,
+  sanitize_utf8 m = Json.unquote (Json.escape_body m).
+Proof. exact ErrsMore.sanitize_is_unquote_escape. Qed.
+Print Assumptions c14_message_model_agrees.
+
+(* json.Marshal(RawMessage): on every text the tree parser accepts, what the scanner model returns
+   is the tree model's compaction *)
+Theorem c14_compact_models_agree : forall d d' : bytes,
+  Json.valid d = true -> compact d = Some d' -> Json.compact d = Some d'.
+Proof. exact ErrsMore.compact_models_agree. Qed.
+Print Assumptions c14_compact_models_agree.
+
+Theorem c14_squeeze_is_tree_compaction : forall d q : bytes, Json.compact d = Some q -> squeeze SqOut d = q.
+Proof. exact ErrsMore.squeeze_is_compact. Qed.
+Print Assumptions c14_squeeze_is_tree_compaction.
+
+(* error data arrive JSON-equal as VALUES (Json.parse), not only as token streams.
+   _partial: the hypothesis Json.valid d = true is what is missing for
+     wire_data d = Some d' -> d <> [] -> Json.parse d' = Json.parse d;
+   it would follow from "compact d <> None -> Json.valid d = true" (the byte scanner accepts only what
+   the tree parser accepts), which is not proved. *)
+Theorem c14_data_json_equal_value_partial : forall d d' : bytes,
+  wire_data d = Some d' -> d <> [] -> Json.valid d = true ->
+  Json.parse d' = Json.parse d /\ Json.compact d = Some d' /\ Json.parse d <> None.
+Proof. exact ErrsMore.data_json_equal_value_partial. Qed.
+Print Assumptions c14_data_json_equal_value_partial.
+
+Theorem c14_error_verbatim_value_partial : forall r c m d d',
+  c <> Cancelled -> c <> DeadlineExceeded -> valid_utf8 m = true -> wire_data d = Some d' ->
+  d <> [] -> Json.valid d = true ->
+  call r (EJrpc c m d) = OErr (EJrpc c m d') /\ Json.parse d' = Json.parse d.
+Proof. exact ErrsMore.error_verbatim_value_partial. Qed.
+Print Assumptions c14_error_verbatim_value_partial.
